@@ -132,3 +132,15 @@ Section PartitionState.
     split; [intro H; inversion H; reflexivity | intro H; rewrite H; reflexivity].
   Qed.
 End PartitionState.
+
+(* the hypotheses are satisfiable: a state built by new_from_nodes_and_edges is coherent *)
+Example nodes_coherent_nonvacuous :
+  match new_from_nodes_and_edges Z.eqb Z.ltb
+          [mknode 3%Z (None : option Z); mknode 1%Z None; mknode 2%Z None]
+          [mkedge 3%Z 1%Z None None; mkedge 1%Z 2%Z None None]
+          (mkspecs false DErr MCreate false true SErr) with
+  | Ok g => nodes_coherentb Z.eqb g = true /\ is_partition Z.eqb g [[1]; [3; 2]]%Z = Ok true /\
+            is_partition Z.eqb g [[1; 3]; [3]]%Z = Ok false
+  | _ => False
+  end.
+Proof. vm_compute. repeat split. Qed.
